@@ -116,6 +116,19 @@ func PlusContents() []Content {
 	ptrTo("intoAuxNested", AuxA+"#/definitions/auxHolder/properties/in", func(b *BundleSpec) {
 		b.Add(AuxA, P(J{"type": "object", "properties": J{"in": simpleObj("auxIn")}}, "definitions", "auxHolder"))
 	})
+	// names the properties exclude from W ('%', '.', '..', empty): referenced, not only declared
+	for i, nm := range []string{"100%", ".", "..", "", "a%2Fb", "%41"} {
+		nm := nm
+		ptrTo("oddNameLocal"+strconv.Itoa(i), "#/definitions/"+EscName(nm), func(b *BundleSpec) {
+			b.Add(RootFile, P(simpleObj("oddLocal"), "definitions", nm))
+		})
+		ptrTo("oddNameAux"+strconv.Itoa(i), AuxA+"#/definitions/"+EscName(nm), func(b *BundleSpec) {
+			b.Add(AuxA, P(J{"type": "object", "properties": J{"in": simpleObj("oddAuxIn"), "self": J{"$ref": "#/definitions/" + EscName(nm)}}}, "definitions", nm))
+		})
+	}
+	add("oddPropertyNames", "plus-names", func(b *BundleSpec, s int) J {
+		return J{"type": "object", "properties": J{"50%": simpleObj("pct"), ".": simpleObj("dot"), "..": simpleObj("dotdot"), "": simpleObj("empty"), "a%2Fb": simpleObj("enc")}}
+	})
 	// dangling $refs
 	ptrTo("danglingLocalDefinition", "#/definitions/nope", nil)
 	ptrTo("danglingLocalPointer", "#/definitions/nope/properties/x", nil)
@@ -190,6 +203,23 @@ func PlusFeatures() []Feature {
 	add("unusedDefinitionWithDanglingRef", func(b *BundleSpec, s int) {
 		b.Add(RootFile, P(J{"type": "object", "properties": J{"d": J{"$ref": "#/definitions/nowhere"}}}, "definitions", "unusedDangling"))
 	})
+	for i, pt := range []string{"/p%/x", "/p%2Fq/{id}", "/./x", "/../y", "//", "/p%zz"} {
+		pt := pt
+		add("oddPath"+strconv.Itoa(i), func(b *BundleSpec, s int) {
+			b.Add(RootFile, P(J{"parameters": []any{J{"name": "body", "in": "body", "schema": simpleObj("oddPathBody")}}}, "paths", pt, "post"),
+				P(J{"description": "ok", "schema": J{"type": "array", "items": simpleObj("oddPathItem")}}, "paths", pt, "post", "responses", "200"),
+				P(J{"parameters": []any{J{"name": "pl", "in": "body", "schema": simpleObj("oddPathLevel")}}}, "paths", pt))
+		})
+	}
+	for i, nm := range []string{"100%", "a%2Fb", "..", "a/b", "t~x", "pet owner"} {
+		nm := nm
+		add("oddSharedNames"+strconv.Itoa(i), func(b *BundleSpec, s int) {
+			b.Add(RootFile, P(J{"name": "body", "in": "body", "schema": simpleObj("oddSharedBody")}, "parameters", nm),
+				P(J{"description": "odd shared", "schema": J{"type": "array", "items": simpleObj("oddSharedItem")}, "headers": J{"X-" + strconv.Itoa(i): J{"type": "string"}}}, "responses", nm),
+				P(J{"operationId": "patchOdd", "parameters": []any{J{"$ref": "#/parameters/" + EscName(nm)}}}, "paths", "/odd", "patch"),
+				P(J{"$ref": "#/responses/" + EscName(nm)}, "paths", "/odd", "patch", "responses", "200"))
+		})
+	}
 	for i, nm := range []string{"%", ".", "..", "a%2Fb"} {
 		nm := nm
 		add("oddName"+strconv.Itoa(i), func(b *BundleSpec, s int) { b.Add(RootFile, P(simpleObj("odd"), "definitions", nm)) })
